@@ -1,6 +1,6 @@
 """C05: each batch flushed once, highest priority first; every item answered; events paired."""
 from vlib.spec import Cond, I, B
-from harness import core, fam
+from harness import core, fam, lemmas
 
 P = {"c05", "c05prio"}      # yield-only families: priority clause asserted
 PR = {"c05"}                # re-entry / fault families: no priority clause (DESIGN.md C05 scope)
@@ -24,6 +24,7 @@ def conds(tier):
     out.append(core.fault_cond("fault", PR, [4], g0modes=2, g1modes=3, pin=4, budget=200))
     out.append(core.cancel_cond("cancel", PR))
     out.append(core.dagsync_cond("dagsync", PR))
+    out.append(lemmas.select_cond())
     if not q:
         out.append(Cond("tree3k", core.mk_tree(P, 3, 2, 3), core.tree_params(3, 2, 3), pin=3, budget=900,
                         family="F-TREE(3,2,3)", encodes=core.ENC_SCHED))
